@@ -11,8 +11,10 @@ package main
 //       are logged for validation by specs/GarbleTrace.tla.
 
 import (
+	"bytes"
 	"encoding/json"
 	"fmt"
+	"io"
 	"math/big"
 	"math/rand"
 
@@ -93,11 +95,48 @@ type gObs struct {
 // garbleOnce runs Garble, Eval and Compute once and reports findings.
 var c01KeyBuf = make([]byte, 32)
 
-func garbleOnce(res *Result, c *circuit.Circuit, gc *gCase, rng *rand.Rand, keyLen int) *gObs {
+// degenerate randomness sources: the property quantifies over every randomness, also an all-zero, all-one,
+// counting or one-bit-per-byte stream (labels and R of low or full Hamming weight, labels that coincide)
+type patRand struct {
+	kind string
+	n    int
+}
+
+func (p *patRand) Read(b []byte) (int, error) {
+	for i := range b {
+		switch p.kind {
+		case "zero":
+			b[i] = 0
+		case "ones":
+			b[i] = 0xff
+		case "count":
+			b[i] = byte(p.n / 16) // one value per 16-byte label
+		case "sparse":
+			b[i] = 0
+			if p.n%16 == 15-(p.n/16)%16 {
+				b[i] = 1 << uint((p.n/256)%8)
+			}
+		}
+		p.n++
+	}
+	return len(b), nil
+}
+
+// lblBytes compares labels without the library's own comparison
+func lblSame(a, b ot.Label) bool {
+	var da, db ot.LabelData
+	return bytes.Equal(a.Bytes(&da), b.Bytes(&db))
+}
+
+func garbleOnce(res *Result, c *circuit.Circuit, gc *gCase, rng *rand.Rand, keyLen int, pat ...string) *gObs {
 	// one key buffer serves all garblings (Garble must not retain the caller's slice)
 	key := c01KeyBuf[:keyLen]
 	rng.Read(key)
-	garbled, err := c.Garble(rng, key)
+	var src io.Reader = rng
+	if len(pat) > 0 && pat[0] != "" {
+		src = &patRand{kind: pat[0]}
+	}
+	garbled, err := c.Garble(src, key)
 	if err != nil {
 		res.viol("garble-error", "Garble: %v", err)
 		return nil
@@ -119,7 +158,7 @@ func garbleOnce(res *Result, c *circuit.Circuit, gc *gCase, rng *rand.Rand, keyL
 	for w := 0; w < c.NumWires; w++ {
 		x := garbled.Wires[w].L0
 		x.Xor(garbled.Wires[w].L1)
-		if !x.Equal(garbled.R) {
+		if !lblSame(x, garbled.R) {
 			res.viol("free-xor", "wire %d: L0 xor L1 != R", w)
 		}
 	}
@@ -158,6 +197,14 @@ func garbleOnce(res *Result, c *circuit.Circuit, gc *gCase, rng *rand.Rand, keyL
 			if b != gc.Plain[w] {
 				res.viol("wrong-bit:"+map[bool]string{true: "input", false: "gate"}[w < gc.Nin], "wire %d decodes to %d, truth table gives %d", w, b, gc.Plain[w])
 			}
+		}
+		// byte for byte: the evaluated label is the wire's label for the truth-table bit
+		want := garbled.Wires[w].L0
+		if gc.Plain[w] == 1 {
+			want = garbled.Wires[w].L1
+		}
+		if err == nil && !lblSame(wires[w], want) {
+			res.viol("wrong-label", "wire %d: the evaluated label is not the label of bit %d", w, gc.Plain[w])
 		}
 		if w >= gc.Nin {
 			g := gc.Gates[w-gc.Nin]
@@ -224,9 +271,9 @@ func c01Main(args []string) error {
 		}
 		defer out.close()
 		idx := 0
-		reps := 3
+		reps := 4
 		if thorough() {
-			reps = 6
+			reps = 7
 		}
 		err = readND(args[1], func(raw json.RawMessage) error {
 			var gc gCase
@@ -236,7 +283,11 @@ func c01Main(args []string) error {
 			res := &Result{Case: idx}
 			c := mkCircuit(gc.Nin, gc.Gates)
 			for r := 0; r < reps && len(res.Viol) == 0; r++ {
-				obs := garbleOnce(res, c, &gc, rng, keyLens[(idx+r/2)%3]) // two garblings in a row with one key length
+				pat := ""
+				if r == reps-1 {
+					pat = []string{"zero", "ones", "count", "sparse"}[idx%4]
+				}
+				obs := garbleOnce(res, c, &gc, rng, keyLens[(idx+r/2)%3], pat) // two garblings in a row with one key length
 				if obs != nil {
 					for _, t := range obs.tuple {
 						tuples[t] = true
